@@ -7,7 +7,10 @@ import (
 )
 
 func init() {
-	register("C20", "iterator protocol: structural clauses", func(c *core.Ctx) {
-		NilGuard(c, "R-NILGUARD", func(t *types.Named) bool { return true })
+	register("C20", "iterator protocol: zero-value, no fabricated elements, Duplicate locking", func(c *core.Ctx) {
+		NilGuard(c, "R-NILGUARD", func(t *types.Named) bool { return isNamed(t, "fp", "Iterator") })
+		fns := libFuncs(c)
+		NoFab(c, "R-NOFAB", fns, 25)
+		LockClosures(c, "R-LOCK", fns, 4)
 	})
 }
